@@ -44,7 +44,10 @@ CheckResult(e) ==
            ELSE TRUE
     ELSE TRUE
 
+\* calls whose arguments lie beyond what the projection can express (year 20000, HH:mm 100:100, ...)
+\* are judged for totality only
 Check(e) == IF e.op = "W26Intervals" THEN CheckW26(e)
+            ELSE IF Has(e.a, "extreme") THEN CheckNoPanic(e)
             ELSE CheckSent(e) /\ CheckReject(e) /\ CheckNoPanic(e) /\ CheckResult(e)
 
 TraceNext == l <= Len(Trace) /\ Check(Trace[l]) /\ l' = l + 1
